@@ -843,12 +843,18 @@ var igxCache = map[*Program]map[*ssa.Function]*IG{}
 // site of the inlined set, depth <= 2). A helper extracted from a role function ("finish()", "hasWork()") then stays part
 // of the paths the rules quantify over. A helper returning boolean constants is threaded into the caller's branch on its
 // result, so the facts established inside it remain attached to the right successor.
-func (p *Program) igx(fn *ssa.Function) *IG {
+func (p *Program) igx(fn *ssa.Function) *IG { return p.igxSkip(fn, nil) }
+
+// igxSkip: as igx, but the functions of skip stay opaque calls (a rule that keys on the branch edges of a call's result
+// must not have that callee spliced in: threaded returns bypass the caller's If node).
+func (p *Program) igxSkip(fn *ssa.Function, skip map[*ssa.Function]bool) *IG {
 	if igxCache[p] == nil {
 		igxCache[p] = map[*ssa.Function]*IG{}
 	}
-	if g, ok := igxCache[p][fn]; ok {
-		return g
+	if skip == nil {
+		if g, ok := igxCache[p][fn]; ok {
+			return g
+		}
 	}
 	set := []*ssa.Function{fn}
 	inSet := map[*ssa.Function]bool{fn: true}
@@ -870,7 +876,7 @@ func (p *Program) igx(fn *ssa.Function) *IG {
 				if mc, isMC := c.Call.Value.(*ssa.MakeClosure); isMC {
 					y, _ = mc.Fn.(*ssa.Function)
 				}
-				if y == nil || len(y.Blocks) == 0 || !p.inModule(y) || fnPkg(y) != fnPkg(fn) {
+				if y == nil || len(y.Blocks) == 0 || !p.inModule(y) || fnPkg(y) != fnPkg(fn) || skip[y] {
 					continue
 				}
 				counts[y] = append(counts[y], c)
@@ -1030,7 +1036,9 @@ func (p *Program) igx(fn *ssa.Function) *IG {
 			g.Pred[t] = append(g.Pred[t], n)
 		}
 	}
-	igxCache[p][fn] = g
+	if skip == nil {
+		igxCache[p][fn] = g
+	}
 	return g
 }
 
@@ -1249,4 +1257,40 @@ func (p *Program) withGraph(g *IG) func() {
 	old := p.ctxG
 	p.ctxG = g
 	return func() { p.ctxG = old }
+}
+
+// unwrapThin: fn does nothing but forward to one module function and return its results
+// (func() (bool, error) { return m.trySend(envelop) }): the forwarded-to function is the role function.
+func (p *Program) unwrapThin(fn *ssa.Function) *ssa.Function {
+	if fn == nil || len(fn.Blocks) != 1 {
+		return fn
+	}
+	var call *ssa.Call
+	for _, in := range fn.Blocks[0].Instrs {
+		switch x := in.(type) {
+		case *ssa.Call:
+			if call != nil || x.Call.StaticCallee() == nil || !p.inModule(x.Call.StaticCallee()) {
+				return fn
+			}
+			call = x
+		case *ssa.UnOp, *ssa.FieldAddr, *ssa.Extract, *ssa.DebugRef, *ssa.Field:
+		case *ssa.Return:
+			if call == nil {
+				return fn
+			}
+			for _, res := range x.Results {
+				v := res
+				if ex, ok := v.(*ssa.Extract); ok {
+					v = ex.Tuple
+				}
+				if v != ssa.Value(call) {
+					return fn
+				}
+			}
+			return call.Call.StaticCallee()
+		default:
+			return fn
+		}
+	}
+	return fn
 }
